@@ -25,8 +25,12 @@ let dtype_str = function
 let hmac h k m = ocall "hmac" [hash_name h] [k; m]
 let edpub seed = ocall "ed25519_pub" [] [seed]
 let st_str = function Enabled -> "E" | Disabled -> "D" | Destroyed -> "X" | UnknownStatus -> "?"
-let handle line =
+let rec handle line =
   match String.split_on_char '|' line with
+  | ["C17H"; entries; salts] ->
+    (* a history on one deriver: by C17_deterministic each call is the function of (keyset, salt) *)
+    let rs = List.map (fun s -> handle ("C17|" ^ entries ^ "|" ^ s)) (String.split_on_char ';' salts) in
+    if List.mem "new-err" rs then "new-err" else String.concat " ## " rs
   | [_; entries; salt] ->
     let es = List.map (fun s ->
       match split ',' s with
